@@ -39,6 +39,7 @@ const (
 	TFJSONGarbage  ToolFault = "json-then-garbage" // shellcheck only: a valid JSON array followed by a crash message
 	TFNullElement  ToolFault = "null-element"      // shellcheck only: valid JSON with a null element: [null]
 	TFNoNewline    ToolFault = "no-final-newline"  // pyflakes only: the output is cut off in the middle of the last line
+	TFBusyOnce     ToolFault = "busy-once"         // the first start attempt fails with ETXTBSY (the executable is being written); a second attempt works
 )
 
 // ToolIssue is one issue a simulated tool prints.
@@ -76,6 +77,9 @@ type Tools struct {
 	Missing map[string]bool      // tools LookPath does not find
 	Faults  map[string]ToolFault // invocation key -> fault
 	Errno   map[string]int64     // invocation key -> errno for cannot-start
+	// BusyOnce: the first start of that tool in the run fails with ETXTBSY, later starts work
+	BusyOnce map[string]bool
+	busySeen bool
 }
 
 // InvKey identifies an invocation independently of the schedule.
@@ -119,6 +123,11 @@ func (t *Tools) fault(tool, stdin string) ToolFault {
 
 func (t *Tools) CanStart(argv []string, stdin string) int64 {
 	k := InvKey(toolOf(argv), stdin)
+	if t.BusyOnce[toolOf(argv)] && !t.busySeen {
+		// whatever is started first for this tool finds its executable busy, once
+		t.busySeen = true
+		return int64(syscall.ETXTBSY)
+	}
 	if t.fault(toolOf(argv), stdin) == TFCannotStart {
 		if e := t.Errno[k]; e != 0 {
 			return e
